@@ -112,6 +112,22 @@ def groups(tier, seed):
         for path in ('stream', 'ordered', 'aggregate', 'grouped', 'grouped-ordered'):
             yield {'dir': d, 'path': path, 'cases': [{'cols': ci, 'fmt': fmt, 'limit': None, 'lit': lit} for ci in (0, 1) for fmt in FORMATS
                                                       for lit in ('1', "'#'", '2 + 3', "'-1'", 'case-twins')]}
+    yield from groups_extra(tier)
+
+
+DUPS = {'dup3': ['name', 'size', 'name'], 'dup4': ['name', 'NAME', 'size', 'name'], 'dup2': ['size', 'size'], 'dup5': ['name', 'lower(name)', 'lower(name)', 'size', 'lower(NAME)'],
+        'dup6': ["'x'", "'x'", 'name', "'x'", '5', "'5'"]}
+
+
+def groups_extra(tier):
+    # group rows under a limit: the cut must be the same in every run (with and without tied sort keys)
+    for d in ('many', 'plain'):      # hundreds of groups: an order that varies from run to run shows with certainty
+        for path in ('grouped', 'grouped-ordered', 'grouped-tied'):
+            yield {'dir': d, 'path': path, 'cases': [{'cols': ci, 'fmt': fmt, 'limit': lim} for ci in (0, 1, 5) for fmt in FORMATS for lim in (1, 3, 7)]}
+    # a column selected more than once
+    for d in ('d1', 'd2', 'plain'):
+        for path in ('stream', 'ordered', 'grouped'):
+            yield {'dir': d, 'path': path, 'cases': [{'cols': k, 'fmt': fmt, 'limit': None} for k in DUPS for fmt in FORMATS]}
 
 
 def single(case):
@@ -264,10 +280,11 @@ def eval_group(env, group, tier):
     try:
         d, path = group['dir'], group['path']
         for c in group['cases']:
-            cols = COLSETS[c['cols']] if isinstance(c['cols'], int) else (LONG5 if c['cols'] == 'long5' else LONGSEL)
+            cols = COLSETS[c['cols']] if isinstance(c['cols'], int) else DUPS[c['cols']] if c['cols'] in DUPS else (LONG5 if c['cols'] == 'long5' else LONGSEL)
             fmt = c['fmt']
             if fmt in ('tabs', 'lines') and d in ('many', 'd2', 'r1, r2', 'nl'):
                 continue
+            gcols = cols if isinstance(c['cols'], int) or c['cols'] not in DUPS else [k for i, k in enumerate(cols) if k not in cols[:i] and k[0] not in "'5"]
             if path == 'stream':
                 sel, tail, ordered = cols, '', False
             elif path == 'ordered':
@@ -275,7 +292,9 @@ def eval_group(env, group, tier):
             elif path == 'aggregate':
                 sel, tail, ordered = ['count(*)', 'sum(size)', "'a<b>&c,\"d e'"][:len(cols) + 1], '', False
             elif path == 'grouped':
-                sel, tail, ordered = cols + ['count(*)'], ' group by ' + ', '.join(cols), False
+                sel, tail, ordered = cols + ['count(*)'], ' group by ' + ', '.join(gcols), False
+            elif path == 'grouped-tied':      # every group has one row: the sort keys all tie and the order is the order of the groups
+                sel, tail, ordered = cols + ['count(*)'], ' group by ' + ', '.join(cols) + ' order by count(*)', True
             else:
                 sel, tail, ordered = cols + ['count(*)'], ' group by ' + ', '.join(cols) + ' order by name', True
             if c['limit']:
@@ -293,6 +312,13 @@ def eval_group(env, group, tier):
             r = {'case': case, 'layer': fmt + ':' + path}
             if ref.rc != 0 or refrows is None:
                 raise core.MachineryError('C09 reference query failed: %r %r' % (base, ref.brief()))
+            if path.startswith('grouped') and c['limit']:
+                again = [env.run([base + ' into list'], cwd=root).out for _ in range(2)]
+                if any(a != ref.out for a in again):
+                    r.update(status='viol', cls='grouped-limit:rows-vary-between-runs', nt=True, sig=('vary', path),
+                             detail={'query': base + ' into list', 'run1': ref.out[:80].decode('utf-8', 'replace'), 'run2': [a for a in again if a != ref.out][0][:80].decode('utf-8', 'replace')})
+                    outs.append(r)
+                    continue
             o = env.run([base + ' into ' + fmt], cwd=root)
             r['nt'] = any(ch in v for row in refrows for v in row for ch in SPECIAL[fmt]) or len(refrows) > 1
             r['trans'] = max(1, len(refrows))
